@@ -191,6 +191,8 @@ func (fx *fixture) buildWrite(ev string) *request {
 		case "X": // the attacker "countersigns" with its own key
 			t = world.CounterSign(t, fx.X)
 		case "none": // issuer-signed content only
+		case "echo": // the issuer's own signature copied into the receiver-signature field
+			t.ReceiverSignature = append([]byte(nil), t.IssuerSignature...)
 		}
 		return &request{rpc: "Confirm", trx: fx.protoTx(t)}
 	case "Reject": // Reject:<who signs>[:<contract>]
